@@ -64,8 +64,23 @@ func C20(c *core.Ctx) {
 		if r.Intn(4) == 0 {
 			v2 = v1
 		}
+		// a third of the keys are handed over as slices with spare capacity followed by live bytes of
+		// the caller (a scratch buffer, the key part of a record); every eighth pair encodes one such
+		// buffer at two versions
+		var guard1 []byte
+		if i%3 == 0 {
+			buf := append(append(make([]byte, 0, len(k1)+24), k1...), "0123456789abcdef"...)
+			k1, guard1 = buf[:len(k1)], buf[len(k1):]
+			if i%8 == 0 {
+				k2 = k1
+			}
+		}
 		e1, e2 := y.KeyWithTs(k1, v1), y.KeyWithTs(k2, v2)
 		c.Eval(1)
+		if guard1 != nil && string(guard1) != "0123456789abcdef" {
+			c.Violation("C20|roundtrip|KeyWithTs-writes-into-callers-buffer", fmt.Sprintf("encoding key %x at version %d changed the bytes after the key in the caller's buffer to %x", k1, v1, guard1),
+				map[string]any{"key": hex.EncodeToString(k1), "version": v1})
+		}
 		if !bytes.Equal(y.ParseKey(e1), k1) || y.ParseTs(e1) != v1 {
 			c.Violation("C20|roundtrip|KeyWithTs/ParseKey/ParseTs", fmt.Sprintf("key %x ver %d decodes to %x / %d", k1, v1, y.ParseKey(e1), y.ParseTs(e1)),
 				map[string]any{"key": hex.EncodeToString(k1), "version": v1})
